@@ -291,6 +291,39 @@ def run(ctx):
     r = ctx.rule("C01-R10", "RESET", "'nothing else set': what an earlier parse collected (also one that ended in an error) cannot show up "
                  "in this result - the parser's scratch attributes are re-initialised before their first use (same rule as C05-R1)", reference=2)
     scratch_rule(ctx, r, parser.methods["parse"])
+
+    # ---------------------------------------------------------------- R11
+    from .c02 import value_as_given_rule
+
+    r = ctx.rule("C01-R11", "ORDER", "'--name=value' and '--name value' are told apart by whether a value was attached, not by whether it is empty: no None "
+                 "assignment reaches the value-given / look-ahead tests except under a non-string sentinel (same rule as C02-R9)", reference=2)
+    value_as_given_rule(ctx, r, parser)
+
+    # ---------------------------------------------------------------- R12
+    r = ctx.rule("C01-R12", "KEY", "a synthesised argument name (the hidden slot for a command name) is tested for uniqueness against the format it will be "
+                 "merged with, so that no declared argument can take over the slot", reference=1)
+    pf = parser.methods["parse"]
+    n12 = 0
+    for w in [n for n in walk_no_nested(pf.node) if isinstance(n, ast.While)]:
+        gen = [a for a in walk_no_nested(w) if isinstance(a, ast.Assign) and isinstance(a.targets[0], ast.Name) and isinstance(a.value, ast.Call) and isinstance(a.value.func, ast.Attribute) and a.value.func.attr == "format"]
+        if not gen:
+            continue
+        var = gen[0].targets[0].id
+        if var not in q.names_in(w.test):
+            continue
+        n12 += 1
+        against_fmt = any(isinstance(c, ast.Call) and isinstance(c.func, ast.Attribute) and c.func.attr in ("has_argument", "get_arguments") and isinstance(c.func.value, ast.Name) and c.func.value.id in pf.params
+                          for c in ast.walk(w.test))
+        if against_fmt:
+            r.ok("%s: `%s` is regenerated while %s" % (pf.short, var, norm(w.test)))
+        else:
+            r.fail(pf, w, "uniqueness test `%s`" % norm(w.test), "the generated name `%s` is tested with `%s`, not against the format's own arguments: a declared argument of that name "
+                   "replaces the hidden command-name slot when the two are merged, and every positional shifts" % (var, norm(w.test)))
+    if n12 == 0:
+        r.vacuous_ok = True
+        r.note("parse() no longer generates hidden argument names in a loop")
+    ctx.borrow("c07", "C07-R2", "C01-R13", "'everything not given reports its default': a declared default is kept whenever one is given (`is not None` - 0, False and '' are "
+               "defaults too) and the declared value mode is the one the parser consults")
     return ctx.results
 
 
